@@ -1063,12 +1063,18 @@ class Srv:
     def panic_rules(self):
         res = self.res
         seen = defaultdict(int)
+        spans = set()
         for name, h in self.hs.items():
             for k, evs in h.events.items():
                 for e in evs:
                     if e.kind == "panic" and not (e.nested and k != h.user[0] and False):
-                        if e.nested and k == h.user[0]:
-                            pass
+                        # one source site is one call, however many bodies / block copies show it
+                        if (name, e.detail, e.nested or "", e.sp) in spans:
+                            continue
+                        spans.add((name, e.detail, e.nested or "", e.sp))
+                        if not e.nested and (name, e.detail, "*", e.sp) in spans:
+                            continue
+                        spans.add((name, e.detail, "*", e.sp))
                         seen[(name, e.detail, e.nested or "")] += 1
         for (name, det, nested), c in sorted(seen.items()):
             if nested and (name, det, "") in seen:
